@@ -200,6 +200,10 @@ func createASTTypeExpr(pkg string, t types.Type, varPool *VarPool, imports map[s
 		if err != nil {
 			return nil, fmt.Errorf("chan element: %w", err)
 		}
+		// chan (<-chan T) needs its parentheses: "chan <-chan T" is read as chan<- (chan T)
+		if elem, ok := typ.Elem().(*types.Chan); ok && elem.Dir() == types.RecvOnly && typ.Dir() != types.RecvOnly {
+			expr = &ast.ParenExpr{X: expr}
+		}
 
 		return &ast.ChanType{
 			Dir:   dir,
